@@ -32,6 +32,7 @@ type c11Case struct {
 	MinUs  int64    `json:"min_us"`   // for timeouts: the call must not return before this (from its start)
 	CallUs int64    `json:"call_us"`  // duration of the call itself
 	Oracle []string `json:"oracle"`
+	Disp   []c11DispObs `json:"disp,omitempty"`
 	Skip   string   `json:"skipped,omitempty"`
 }
 
@@ -1062,6 +1063,161 @@ func c11OnData(id int, kind string, deferred bool, end string, delay int64, dir 
 	return
 }
 
+// PEER GONE WITH OUR BYTES UNREAD: the dispatcher is kept busy (so the peer end does not read its socket), this side
+// flushes (a polling notification stays unread in the peer's socket), then the peer's end of the control
+// connection is closed the way a killed process closes it - without reading.  The kernel reports
+// EPOLLIN|EPOLLRDHUP|EPOLLHUP|EPOLLERR once, and the first read fails with ECONNRESET.  The survivor's waiters
+// (a stream read, AcceptStream) must be released and its session closed within the bound.
+func c11PeerGoneUnread(id int, waiter string, delay int64, dir string) (c c11Case) {
+	c = c11Case{ID: id, Kind: "peer-gone-unread-" + waiter, Delay: delay}
+	client, server, err := c11Pair(dir, nil, nil)
+	if err != nil {
+		c.Skip = err.Error()
+		return
+	}
+	released := false
+	releaseCh := make(chan struct{})
+	rel := func() {
+		if !released {
+			released = true
+			close(releaseCh)
+		}
+	}
+	defer func() {
+		rel()
+		client.Close()
+		server.Close()
+	}()
+	cst, sst, err := c11Streams(client, server)
+	if err != nil {
+		c.Skip = "stream setup: " + err.Error()
+		return
+	}
+	_ = cst
+	buf := make([]byte, 64)
+	var ch chan c11Ret
+	if waiter == "read" {
+		ch = c11Call(func() (int, error) { return sst.Read(buf) })
+	} else {
+		ch = c11Call(func() (int, error) { _, e := server.AcceptStream(); return 0, e })
+	}
+	// the peer (client) has consumed everything: the survivor's next Flush writes a polling notification
+	end := time.Now().Add(c11Bound)
+	for server.sendQueue().consumerIsWorking() && time.Now().Before(end) {
+		time.Sleep(time.Millisecond)
+	}
+	if server.sendQueue().consumerIsWorking() {
+		c.Skip = "peer never went idle"
+		return
+	}
+	entered := make(chan struct{})
+	defaultDispatcher.post(func() {
+		close(entered)
+		<-releaseCh
+	})
+	select {
+	case <-entered:
+	case <-time.After(c11Bound):
+		c.Skip = "the dispatcher did not pick up the stalling task"
+		return
+	}
+	before := atomic.LoadUint64(&server.stats.sendPollingEventCount)
+	if _, err = sst.Write([]byte("ping")); err != nil {
+		c.Skip = "survivor's write failed: " + err.Error()
+		return
+	}
+	if atomic.LoadUint64(&server.stats.sendPollingEventCount) != before+1 {
+		c.Skip = "precondition: the Flush should have written a polling notification"
+		return
+	}
+	c11Sleep(delay)
+	// the peer's end goes away with the notification unread
+	if err = client.eventConn.(*connEventHandler).file.Close(); err != nil {
+		c.Skip = "closing the peer's end failed: " + err.Error()
+		return
+	}
+	t := time.Now()
+	rel()
+	select {
+	case <-server.CloseChan():
+	case <-time.After(c11Bound):
+		c.fail("peer-gone-unread: the peer's end of the control connection was closed with our bytes unread, the session is still not shut down after %v", c11Bound)
+	}
+	ret := c11Await(ch, 1500*time.Millisecond)
+	if waiter == "read" {
+		c.record(ret, t, 2, 3)
+	} else {
+		c.record(ret, t, 4, 9)
+	}
+	if ret == nil {
+		server.Close()
+		c11Await(ch, c11Bound)
+	}
+	return
+}
+
+// handleEvent's treatment of the hang-up bit, observed on the real connEventHandler for every mask that contains
+// EPOLLRDHUP, on an fd whose first read FAILS (the peer end was closed with our bytes unread): is onRemoteClose called?
+type c11DispCb struct{ closed, read bool }
+
+func (d *c11DispCb) onEventData(buf []byte, conn eventConn) error { d.read = true; return nil }
+func (d *c11DispCb) onRemoteClose()                                 { d.closed = true }
+func (d *c11DispCb) onLocalClose()                                  {}
+
+type c11DispObs struct {
+	In     bool `json:"in"`
+	Out    bool `json:"out"`
+	Closed bool `json:"closed"`
+}
+
+func c11DispatchHangup(id int, dir string) (c c11Case, obs []c11DispObs) {
+	c = c11Case{ID: id, Kind: "dispatch-hangup"}
+	ensureDefaultDispatcherInit()
+	d, ok := defaultDispatcher.(*epollDispatcher)
+	if !ok {
+		c.Skip = "default dispatcher is not the epoll dispatcher"
+		return
+	}
+	for mask := 0; mask < 4; mask++ {
+		a, b, err := c11RawPair(dir)
+		if err != nil {
+			c.Skip = err.Error()
+			return
+		}
+		af, err := a.(*net.UnixConn).File()
+		a.Close()
+		if err != nil {
+			b.Close()
+			c.Skip = err.Error()
+			return
+		}
+		h := d.newConnection(af).(*connEventHandler)
+		syscall.SetNonblock(h.fd, true) // not registered with epoll: handleEvent is called directly
+		cb := &c11DispCb{}
+		h.callback = cb
+		// our bytes unread in the peer's socket, then the peer's end goes away: the next read on h.fd fails
+		syscall.Write(h.fd, []byte("unread"))
+		b.Close()
+		time.Sleep(2 * time.Millisecond)
+		o := c11DispObs{In: mask&2 != 0, Out: mask&1 != 0}
+		events := syscall.EPOLLRDHUP | syscall.EPOLLHUP | syscall.EPOLLERR
+		if o.In {
+			events |= syscall.EPOLLIN
+		}
+		if o.Out {
+			events |= syscall.EPOLLOUT
+		}
+		h.handleEvent(events, d)
+		o.Closed = cb.closed
+		obs = append(obs, o)
+		if !cb.closed {
+			c.fail("dispatch-hangup: an epoll event with EPOLLRDHUP (in=%v out=%v) whose read fails did not call onRemoteClose: the session never learns that the peer is gone", o.In, o.Out)
+			h.close()
+		}
+	}
+	return
+}
+
 // Scheduling hook compiled into Stream.Close by the plugin (overlay copy of the current stream.go): runs between
 // the load of callbackInProcess (== 0) and the call of close().  nil except in c11CloseVsCallbackStart.
 var vhookC11BeforeClose func(s *Stream)
@@ -1266,6 +1422,17 @@ func TestVerif_C11(t *testing.T) {
 	for _, q := range []int{1, 4, 8} {
 		d := delays[r.intn(len(delays))]
 		emit(c11PeerCloseQueueFull(id, q, d, dir))
+		id++
+	}
+	for _, w := range []string{"read", "accept", "read", "accept"} {
+		d := delays[r.intn(len(delays))]
+		emit(c11PeerGoneUnread(id, w, d, dir))
+		id++
+	}
+	{
+		dc, dobs := c11DispatchHangup(id, dir)
+		dc.Disp = dobs
+		emit(dc)
 		id++
 	}
 	time.Sleep(300 * time.Millisecond)
